@@ -117,6 +117,17 @@ def main():
                 omap[c.id] = c
         ores = core.run_model(olines)
         oracle_fail = [omap[i] for i in omap if not ores.get(i, "NOANSWER").startswith("PASS")]
+        # sanity of the oracle itself: it must accept the model's behaviour (that is the theorem)
+        mlines = []
+        for c in cases:
+            o = mod.oracle(c, model.get(c.id, "NOANSWER"))
+            if o is not None:
+                mlines.append("%s %s %s" % (o[0], c.id, o[1]))
+        mres = core.run_model(mlines)
+        oracle_rejects_model = [i for i in mres if not mres[i].startswith("PASS")]
+        if oracle_rejects_model:
+            notes.append("ORACLE-BUG: the oracle rejects the model's own behaviour on %d cases, first: %s" % (
+                len(oracle_rejects_model), core.short(cases[int(oracle_rejects_model[0])].line(), 300)))
         extra = getattr(mod, "extra", None)
         extra_cov = {}
         if extra is not None and not a.replay:
@@ -133,6 +144,7 @@ def main():
             "disagreements": len(disagree),
             "oracle_evaluations_on_impl": len(olines),
             "oracle_failures_on_impl": len(oracle_fail),
+            "oracle_rejections_of_model": len(oracle_rejects_model),
             "samples": [{"case": core.short(c.line()), "impl": core.short(impl.get(c.id, "")),
                          "model": core.short(model.get(c.id, ""))}
                         for c in (cases[:2] + cases[len(cases) // 2: len(cases) // 2 + 2] + cases[-2:])],
@@ -164,6 +176,19 @@ def main():
                     "observed": impl.get(c.id), "model": model.get(c.id), "oracle": ores.get(c.id),
                     "oracle_name": "%s.check (PortusModel/Props/%s.lean)" % (prop, prop),
                     "seed": seed, "tier": tier, "failing_inputs": len(unk)}))
+        if oracle_rejects_model:
+            violations.append(("oracle-bug", {"property": prop, "kind": "no-failing-input-found",
+                                              "relation": "Cnn.check x (Model x) = true (the check's own oracle is inconsistent with its model)",
+                                              "case": cases[int(oracle_rejects_model[0])].line(), "detail": notes[-1]}))
+        if disagree and getattr(mod, "SPEC_IS_ORACLE", False) and not any(k == "failing-input" for k, _ in violations):
+            # the compared projection is exactly what the property speaks about and the model is its closed-form
+            # specification (proved complete): a disagreement is an input on which the implementation violates it
+            c = min(disagree, key=lambda c: len(c.args))
+            violations.append(("failing-input", {
+                "property": prop, "kind": "failing-input", "case": c.line(), "cases": [x.line() for x in disagree[:20]],
+                "observed": proj(c, impl.get(c.id, "")), "expected_by_specification": proj(c, model.get(c.id, "")),
+                "oracle_name": "closed-form specification " + ", ".join(mod.THEOREMS[:3]),
+                "seed": seed, "tier": tier, "failing_inputs": len(disagree)}))
         if disagree and not any(k == "failing-input" for k, _ in violations):
             c = min(disagree, key=lambda c: len(c.args))
             violations.append(("correspondence", {
